@@ -211,6 +211,20 @@ func (p *Prog) traceLoad(addr ssa.Value, path []int, opts TraceOpts, push func(s
 		if len(path) > 0 {
 			p.fieldStoresOfBase(a, path[0], func(v ssa.Value) { push(v, path[1:]) })
 		}
+		// element-wise initialisation of an array cell (composite literal): any element may be read
+		if refs := a.Referrers(); refs != nil {
+			for _, r := range *refs {
+				if ia, ok := r.(*ssa.IndexAddr); ok && ia.X == a {
+					if rr := ia.Referrers(); rr != nil {
+						for _, u := range *rr {
+							if st, ok := u.(*ssa.Store); ok && st.Addr == ia {
+								push(st.Val, path)
+							}
+						}
+					}
+				}
+			}
+		}
 	case *ssa.FieldAddr:
 		full := append([]int{a.Field}, path...)
 		base := a.X
